@@ -494,6 +494,18 @@ func c15TraceLine(work, line string, lineNo int, r *rng, maxCases int) {
 		if !(d.wm[0] < d.wred && d.wred < d.w[0]) {
 			fail("run-wred-not-between:"+route, "line=%d zeit=%d grw=%v wmin0=%v wred=%v w0=%v stein0=%v", lineNo, zeit, g.GRW, d.wm[0], d.wred, d.w[0], g.STEIN[0])
 		}
+		// restore route (explicit values / pedotransfer function) after a groundwater change: the parameters are the ones the
+		// route assigned (Input's backups) — WMIN, PORGES, WNOR in every layer, W above the layer the table lies in
+		if route == "restore" && !initial {
+			for i := 0; i < N; i++ {
+				above := i+1 < int(g.GRW+1)
+				if d.wm[i] != g.WMIN_Backup[i] || d.por[i] != g.PORGES_Backup[i] || d.wnor[i] != g.WNOR_Backup[i] || (above && d.w[i] != g.W_Backup[i]) {
+					fail(fmt.Sprintf("run-params-not-from-route:restore:ptf%d", g.PTF), "line=%d zeit=%d layer=%d grw=%v w=%v wmin=%v porges=%v wnor=%v assigned_w=%v assigned_wmin=%v assigned_porges=%v assigned_wnor=%v",
+						lineNo, zeit, i+1, g.GRW, d.w[i], d.wm[i], d.por[i], d.wnor[i], g.W_Backup[i], g.WMIN_Backup[i], g.PORGES_Backup[i], g.WNOR_Backup[i])
+					break
+				}
+			}
+		}
 		// below the CURRENT table (every day, whether or not the day loop saw a change): FC = PS ...
 		for l := int(g.GRW+1) + 1; l <= N; l++ {
 			if l >= 1 && d.w[l-1] != d.por[l-1] {
